@@ -187,23 +187,21 @@ mod proofs {
 #[cfg(all(test, not(kani)))]
 mod replay {
     use super::*;
-    #[test]
-    fn verif_replay() {
-        let name = std::env::var("VERIF_HARNESS").unwrap_or_default();
-        let mut r = RSrc::from_env();
-        match name.as_str() {
-            "halfpel_base" => h_halfpel_base(&mut r),
-            "halfpel_umv_bound" => h_halfpel_umv_bound(&mut r),
-            "mv_decode_base" => h_mv_decode(&mut r),
+    fn dispatch(name: &str, r: &mut RSrc) -> bool {
+        match name {
+            "halfpel_base" => h_halfpel_base(r),
+            "halfpel_umv_bound" => h_halfpel_umv_bound(r),
+            "mv_decode_base" => h_mv_decode(r),
             n if n.starts_with("predict_c") => {
                 let n = n.to_string();
                 include!("/verif/hooks/h263/decoder/cpu/mvd_pred_replay_arms.rs")
             }
-            _ => {
-                println!("REPLAY-UNKNOWN harness={}", name);
-                return;
-            }
+            _ => return false,
         }
-        r.report(&name);
+        true
+    }
+    #[test]
+    fn verif_replay() {
+        verif_replay_main(dispatch)
     }
 }
